@@ -5,6 +5,9 @@ mod gen;
 mod guard;
 mod model;
 mod props;
+mod qcheck;
+mod sql;
+mod tables;
 mod report;
 mod rng;
 
